@@ -179,7 +179,79 @@ func init() {
 	register(&Family{ID: "C05", Gen: genC05, Exec: execC05, Budget: budget(1500, 100000)})
 }
 
+// c05CoreCmds is the repertoire of the "core" batch of C05: plain editing, movement, history walk,
+// vi operators with motions and the argument-reading commands, all through default key sequences.
+// On this tree the core batch is free of the known schedule-dependence findings, so that any
+// divergence in it is reported (the full-alphabet batch keeps exploring everything else).
+func c05CoreOnly() map[string]bool {
+	m := map[string]bool{"vi-delete-to": true, "vi-change-to": true, "vi-yank-to": true, "quoted-insert": true, "vi-change-char": true,
+		"vi-find-next-char": true, "vi-find-prev-char": true, "vi-find-next-char-skip": true, "vi-find-prev-char-skip": true,
+		"vi-char-search": true, "vi-replace": false, "vi-delete": true, "vi-put-after": true, "vi-put-before": true,
+		"select-in-word": true, "select-a-word": true, "select-in-blank-word": true, "select-a-blank-word": true}
+	for k, v := range plainCmds {
+		if v {
+			m[k] = true
+		}
+	}
+	for k, v := range movementCmds {
+		if v {
+			m[k] = true
+		}
+	}
+	for _, k := range []string{"accept-line", "undo", "vi-undo", "kill-region", "set-mark", "exchange-point-and-mark", "copy-region-as-kill",
+		"character-search", "character-search-backward", "vi-set-mark", "vi-goto-mark", "vi-match"} {
+		delete(m, k)
+	}
+	return m
+}
+
+func genC05Core(g *Gen, tier string, idx int) *wire.Scenario {
+	mode := Pick(g, []string{"emacs", "vi"})
+	sc := &wire.Scenario{Prop: "C05", Family: "chunk-core"}
+	env := wire.Env{Mode: mode, Prompt: "> ", W: Pick(g, []int{20, 40, 80}), H: g.Range(6, 30)}
+	env.StartRow = g.N(env.H)
+	h := wire.HistSrc{Kind: "memory", Name: "h0"}
+	for i := 0; i < g.Range(0, 4); i++ {
+		h.Entries = append(h.Entries, g.histLine(false))
+	}
+	env.History = []wire.HistSrc{h}
+	env.NoDefaultHistory = true
+	sc.Env = env
+	o := ScriptOpts{Mode: mode, N: g.Range(2, 12), Unicode: false, RawPct: 0, NoAccept: true, NoExtra: true, Only: c05CoreOnly()}
+	for i := 0; i < g.Range(0, 6); i++ {
+		sc.Script = append(sc.Script, tok(string(Pick(g, []rune("abc de(f)\"x'"))), "self-insert"))
+	}
+	if mode == "vi" && g.P(70) {
+		sc.Script = append(sc.Script, tok("\x1b", "vi-movement-mode"))
+		sc.Script = append(sc.Script, g.editScriptTracker(tracker{main: "vi-command"}, o)...)
+		if g.P(50) {
+			sc.Script = append(sc.Script, tok("i", "vi-insertion-mode"))
+		}
+	} else {
+		sc.Script = append(sc.Script, g.EditScript(o)...)
+	}
+	// argument keys are plain ASCII here
+	for i := range sc.Script {
+		if sc.Script[i].Cmd == "arg-key" || sc.Script[i].Cmd == "raw-byte" {
+			sc.Script[i].B = wire.Bytes(string(Pick(g, []rune("abcdxe ("))))
+		}
+	}
+	sc.Script = append(sc.Script, tok("\r", "accept-line"))
+	n := 6
+	if tier == "thorough" {
+		n = 24
+	}
+	for i := 0; i < n; i++ {
+		sc.Plans = append(sc.Plans, wire.Plan{Policy: "seeded", Class: "S2", Seed: g.Seed()})
+	}
+	sc.Plan = wire.Plan{Policy: "canonical", Class: "S0"}
+	return sc
+}
+
 func genC05(g *Gen, tier string, idx int) *wire.Scenario {
+	if idx%2 == 0 {
+		return genC05Core(g, tier, idx)
+	}
 	mode := "emacs"
 	if g.P(50) {
 		mode = "vi"
@@ -357,7 +429,11 @@ func execC05(x *Ctx, sc *wire.Scenario) *wire.Result {
 				extra = "\n" + out.Panic + "\n" + trimStack(out.PanicStack)
 			}
 			// keep only the failing plan so that the replay is one schedule
-			return violation(res, "DIVERGENCE", "C05.schedule-independence", "diverge:"+kind+":"+feat,
+			batch := ""
+			if sc.Family == "chunk-core" {
+				batch = "core:"
+			}
+			return violation(res, "DIVERGENCE", "C05.schedule-independence", batch+"diverge:"+kind+":"+feat,
 				fmt.Sprintf("same bytes, different outcome: slow typist %s; schedule #%d (%s) %s%s", rf, i, feat, gf, extra))
 		}
 	}
@@ -581,7 +657,7 @@ func resolveToken(cat *Catalog, env *wire.Env, main, local string, b string) (cm
 
 func execC06(x *Ctx, sc *wire.Scenario) *wire.Result {
 	res := okResult(sc)
-	out := runSession(x, sc, sc.Plan, sim.Hooks{}, false)
+	out := runSession(x, sc, sc.Plan, sim.Hooks{}, true)
 	absorb(res, out)
 	res.Nontrivial = len(out.Waits) > 3
 	if out.End == "PANIC" || out.End == "DEADLOCK" || out.End == "LIVELOCK" {
@@ -626,11 +702,20 @@ func execC06(x *Ctx, sc *wire.Scenario) *wire.Result {
 		// Not judged at the one wait right after incremental search is left: there the
 		// API still hands out the search minibuffer (insert semantics) for one more command.
 		leftIsearch := i > 0 && (out.Waits[i-1].Local == "isearch" || (w.Partial > 0 && i > 1 && out.Waits[i-2].Local == "isearch"))
-		if w.Kind == "main" && (w.Main == "vi-command" || w.Main == "vi-move" || w.Main == "vi") && w.Local == "" && n > 0 && w.Pos == n && !leftIsearch && w.Tokens <= plainUntil {
+		// judged inside the plain prefix, or wherever the terminal itself shows this very buffer
+		// in the input area (then it is the line being edited, not a search minibuffer)
+		judged := w.Tokens <= plainUntil || lineShownOnScreen(w)
+		if w.Kind == "main" && (w.Main == "vi-command" || w.Main == "vi-move" || w.Main == "vi") && w.Local == "" && n > 0 && w.Pos == n && !leftIsearch && judged {
 			// allowed only when the cursor's line is empty
 			rs := []rune(w.Line)
 			if !(rs[n-1] == '\n') {
-				return violation(res, "INVARIANT", "C06.vi-command-cursor-on-char", "vi-cursor-past-end:"+lastCmd(sc, w.Tokens),
+				detail := lastCmd(sc, w.Tokens)
+				for j := i - 1; j >= 0 && j >= i-2; j-- {
+					if out.Waits[j].Local == "menu-select" {
+						detail = "leaving-completion-menu"
+					}
+				}
+				return violation(res, "INVARIANT", "C06.vi-command-cursor-on-char", "vi-cursor-past-end:"+detail,
 					fmt.Sprintf("vi command mode: cursor %d is past the last character of %q %s", w.Pos, w.Line, where))
 			}
 		}
@@ -745,4 +830,40 @@ func lastCmd(sc *wire.Scenario, tokens int) string {
 		c = "?"
 	}
 	return c
+}
+
+// lineShownOnScreen reports whether the first row of the buffer handed out by the API is what
+// the terminal shows right after the prompt (at the cell it reported for the last cursor query).
+func lineShownOnScreen(w *sim.Snap) bool {
+	t := w.Screen
+	if t == nil || w.Queries == 0 || w.Line == "" {
+		return false
+	}
+	row := w.AnchorAbsRow - t.Scrolled
+	col := w.ReportCol - 1
+	if w.ReportWrap {
+		row, col = row+1, 0
+	}
+	if row < 0 || row >= t.H {
+		return false
+	}
+	k := 0
+	for _, r := range w.Line {
+		if r == '\n' || col >= t.W {
+			break
+		}
+		if r < 0x20 || r > 0x7e {
+			return false // only plain ASCII rows are used as evidence
+		}
+		if t.Rows[row][col].S != string(r) && !(r == ' ' && t.Rows[row][col].Blank()) {
+			return false
+		}
+		col++
+		k++
+	}
+	// and nothing else follows on that row (the minibuffer of a search is drawn elsewhere)
+	if col < t.W && !strings.Contains(w.Line, "\n") && !t.Rows[row][col].Blank() {
+		return false
+	}
+	return k > 0
 }
